@@ -187,6 +187,11 @@ func (ex *Exec) loopEntry(st *State, li *loopInfo) {
 	pre := st.clone()
 	// havoc
 	ex.havocLocals(st, li.ws)
+	for _, it := range st.rangeIt {
+		if it.nextIn != nil && li.blocks[it.nextIn.Block()] {
+			it.visited = ex.ctx.Fresh("rng_visited", arrSort(SInt, SBool)) // keys visited so far: constrained by the invariant
+		}
+	}
 	if li.ws.all {
 		st.havocAll()
 		ex.note("a loop calls a function without contract: whole heap havocked at the loop head")
